@@ -100,7 +100,8 @@ def lean_show(ty, e):
     if ty == "Span":
         return f"(\"Span(\" ++ toString ({e}).lo ++ \", \" ++ toString ({e}).hi ++ \")\")"
     if isinstance(ty, str) and ty.startswith("?"):
-        return f"(match {e} with | none => \"None\" | some o' => {lean_show(ty[1:], \"o'\")})"
+        inner = lean_show(ty[1:], "o'")
+        return "(match " + e + " with | none => \"None\" | some o' => " + inner + ")"
     raise ValueError(ty)
 
 
@@ -258,7 +259,7 @@ def run(keep=False) -> dict:
                         r = getattr(mod, t.function)(*args[:nf])(*args[nf:])
                     elif t.cls is None:
                         fn = getattr(mod, t.function)
-                        r = fn(**dict(zip(pnames, args)))
+                        r = fn(**dict(zip(pnames, args)), **{p: None for p in t.none_params})
                     else:
                         cls = getattr(mod, t.cls_as or t.cls)
                         if t.function == "__init__":
